@@ -1082,7 +1082,12 @@ fn production_path(out: &mut Out, rng: &mut Rng, pol: Pol, next_id: &mut u64) {
     let wl = Workload { incs: vec![Inc { faults: faults.clone(), dead: None, groups, ending: Ending::End, spawn_list_fails: false }], ..wl0 };
     let s = store.inner.lock().unwrap();
     let by_data: HashMap<(Vec<u8>, u64), u64> = wl.writes().iter().map(|w| ((w.data.clone(), w.ts), w.id)).collect();
-    let rec: Vec<Vec<String>> = s.images.iter().map(|img| recover_ids(img, &by_data, wl.max_size)).collect();
+    let recc: Vec<(Vec<String>, Option<(&'static str, String)>)> = s.images.iter().map(|img| recover_ids_checked(img, &by_data, wl.max_size)).collect();
+    if let Some((t, sig, msg)) = recc.iter().enumerate().find_map(|(t, (_, c))| c.as_ref().map(|(s, m)| (t, *s, m.clone()))) {
+        // the composed oracle on the production path: every crash image decodes, deltas bit-identical to what shipped
+        out.violation(sig, &format!("production path, crash image at I/O index {}: {}", t, msg), json!({"commands": cmds.iter().map(|c| format!("{:?}", c)).collect::<Vec<_>>(), "crash_index": t}));
+    }
+    let rec: Vec<Vec<String>> = recc.into_iter().map(|(v, _)| v).collect();
     let crash_s: Vec<String> = rec.iter().map(|v| v.join(" ")).collect();
     let line = op_line(&wl, &[0], &[false]).replacen(if pol == Pol::Always { "G " } else { "GP " }, if pol == Pol::Always { "GQ a " } else { "GQ " }, 1);
     out.op(line.clone(), format!("acks - | trace {} | crash {}", s.trace.join(" "), crash_s.join(" ; ")));
